@@ -337,7 +337,7 @@ pub fn run(args: &[String]) {
         writeln!(w, "tree\t{}\t{}\t{}", enc_text(&text), r, o).unwrap();
     }
     // (f0) \u{...} and \x.. escapes with every digit count up to 12 (value arithmetic of the unescaper, C01)
-    if arg_u64(args, "--escapes", 0) > 0 {
+    if arg_u64(args, "--escapes", 0) > 0 && shard == 0 {
         for nd in 0..=12usize {
             for d in ["F", "1", "0", "8"] {
                 let digits = d.repeat(nd);
@@ -350,7 +350,7 @@ pub fn run(args: &[String]) {
     // (f) string literals with escape sequences, valid and invalid, ASCII and not (validation spans, C12)
     for _ in 0..arg_u64(args, "--escapes", 0) {
         let pieces = ["\\", "\\", "x", "u{", "}", "0", "7", "f", "Z", "é", "€", "😀", "q", "n", "t", "'", " ", "\\\\", "1F600", "D800", "110000", "_",
-                      "123456789", "FFFFFFFFFF", "00000000", "7fffffff", "80"];
+                      "123456789", "FFFFFFFFFF", "00000000", "7fffffff", "80", "\r", "\n", "\\\n", "  ", "\t", "\""];
         let n = 1 + rng.below(6);
         let mut body = String::new();
         for _ in 0..n {
